@@ -6,7 +6,7 @@ import (
 
 // Choices is a recorded choice list: one value sequence per stream.
 type Choices struct {
-	Streams [NumStreams][]uint32 `json:"streams"`
+	Streams [NumStreams][]uint64 `json:"streams"`
 }
 
 // SeedChooser draws from one PCG per stream, all derived from one seed, and records.
@@ -25,7 +25,7 @@ func NewSeedChooser(seed uint64) *SeedChooser {
 
 func (c *SeedChooser) Choose(stream int, label string, n int) int {
 	v := c.rng[stream].IntN(n)
-	c.Rec.Streams[stream] = append(c.Rec.Streams[stream], uint32(v))
+	c.Rec.Streams[stream] = append(c.Rec.Streams[stream], uint64(v))
 	return v
 }
 
@@ -43,9 +43,9 @@ func NewReplayChooser(in Choices) *ReplayChooser { return &ReplayChooser{In: in}
 func (c *ReplayChooser) Choose(stream int, label string, n int) int {
 	v := 0
 	if c.pos[stream] < len(c.In.Streams[stream]) {
-		v = int(c.In.Streams[stream][c.pos[stream]]) % n
+		v = int(c.In.Streams[stream][c.pos[stream]] % uint64(n))
 	}
 	c.pos[stream]++
-	c.Rec.Streams[stream] = append(c.Rec.Streams[stream], uint32(v))
+	c.Rec.Streams[stream] = append(c.Rec.Streams[stream], uint64(v))
 	return v
 }
